@@ -16,9 +16,15 @@ pub fn run_ops(
     ops: &[i64],
     obs: &mut Vec<i64>,
 ) -> bool {
-    for op in ops.chunks(4) {
+    let mut silent: Option<(usize, i64, usize, usize)> = None;
+    for (idx, op) in ops.chunks(4).enumerate() {
         if op.len() < 4 {
             break;
+        }
+        if op[0] == 11 {
+            // marker: see cc14::run_ops
+            silent = Some((idx + op[2].max(0) as usize, op[1].max(0), idx + 1, op[2].max(0) as usize));
+            continue;
         }
         set_now(clock.0);
         let r: Option<[Option<ParameterNumberMessage>; 2]> = match op[0] {
@@ -46,6 +52,19 @@ pub fn run_ops(
                 obs.extend_from_slice(&enc_pn(&o[1]));
             }
             None => return false,
+        }
+        if let Some((last, n, start, w)) = silent {
+            if idx == last {
+                silent = None;
+                let block = &ops[4 * start..(4 * (start + w)).min(ops.len())];
+                let mut scratch = Vec::new();
+                for _ in 0..n {
+                    scratch.clear();
+                    if !run_ops(sc, clock, block, &mut scratch) {
+                        return false;
+                    }
+                }
+            }
         }
     }
     true
